@@ -177,17 +177,22 @@ class _STIXBase(collections.abc.Mapping):
                     else:
                         has_unregistered_toplevel_extension = True
 
+        # (properties given by way of "custom_properties" are no more custom
+        # than the same properties given as keyword arguments)
+        extra_prop_names = (kwargs.keys() | custom_props.keys()) \
+            - self._properties.keys()
         if has_unregistered_toplevel_extension:
             # Must assume all extras are extension properties, not custom.
-            custom_kwargs = set()
+            all_custom_prop_names = set()
 
         else:
             # All toplevel property extensions (if any) have been
             # registered.  So we can tell what their properties are and
             # treat only those as not custom.
-            custom_kwargs = kwargs.keys() - self._properties.keys() \
+            all_custom_prop_names = extra_prop_names \
                 - registered_toplevel_extension_props.keys()
 
+        custom_kwargs = all_custom_prop_names & kwargs.keys()
         if custom_kwargs and not allow_custom:
             raise ExtraPropertiesError(cls, custom_kwargs)
 
@@ -195,8 +200,6 @@ class _STIXBase(collections.abc.Mapping):
             # loophole for custom_properties...
             allow_custom = True
 
-        all_custom_prop_names = (custom_kwargs | custom_props.keys()) - \
-            self._properties.keys()
         if all_custom_prop_names:
             if not isinstance(self, stix2.v20._STIXBase20):
                 for prop_name in all_custom_prop_names:
@@ -217,7 +220,7 @@ class _STIXBase(collections.abc.Mapping):
 
         # Establish property order: spec-defined, toplevel extension, custom.
         toplevel_extension_props = registered_toplevel_extension_props.keys() \
-            | (kwargs.keys() - self._properties.keys() - custom_kwargs)
+            | (extra_prop_names - all_custom_prop_names)
         property_order = itertools.chain(
             self._properties,
             # a set: sort it, or the serialized order depends on hashing
